@@ -158,7 +158,7 @@ def case(ck: Check, camp, shape: dict, kind: str, timeout: float = 15.0, observe
     if observe is not None:
         from . import c07_discr_obs
 
-        res, rec = c07_discr_obs.run_observed(doc, kind, opts, timeout)
+        res, rec = c07_discr_obs.run_observed(doc, kind, opts, timeout, tag_values(shape))
         observe.append((shape, kind, rec))
     else:
         res = e2e.run_generate(json.dumps(doc), input_file_type="openapi", model=kind, opts=opts, timeout=timeout)
@@ -336,17 +336,35 @@ def campaign(ck: Check, n: int) -> list:
     return observed
 
 
-OBSERVE = False
+OBSERVE = True
 
 
 def run_campaigns(ck: Check, n: int) -> None:
-    campaign(ck, n)
+    from . import c07_discr_obs
+
+    observed = campaign(ck, n)
+    c07_discr_obs.correspond(ck, observed)
 
 
 def search(ck: Check) -> None:
     """Targeted search when a proof or a correspondence broke: the stratified family and a fresh stream, end to end."""
     camp = ck.campaign("search: discriminator documents, end to end")
     rng = ck.rng.fork("discrsearch")
+    # the shapes on which the real pass and the model disagree, as complete documents under the option variants
+    seen = set()
+    for d in ck.disagreements:
+        inp = d.input if isinstance(d.input, dict) else {}
+        if "discr_shape" not in inp:
+            continue
+        key = json.dumps(inp["discr_shape"], sort_keys=True)
+        if key in seen or len(seen) >= 12:
+            continue
+        seen.add(key)
+        for kind in KINDS[:2]:
+            for ann in (False, True):
+                case(ck, camp, {**inp["discr_shape"], "annotated": ann, "constraints": ann}, kind)
+                if ck.failures:
+                    return
     for shape, kind in list(CORPUS) + stratified(rng):
         case(ck, camp, shape, kind)
         if ck.failures:
